@@ -67,6 +67,12 @@ class Libm:
 def rvec(rng, scale=None):
     sc = 10 ** rng.uniform(-3, 3) if scale is None else scale
     u = rng.random()
+    if u < 0.04 and scale is None:      # the ends of the double range: huge, tiny, subnormal, signed zero, inf, NaN
+        big = rng.choice([1e200, 1e-200, 1e308, 5e-324, 1e-310, 1e154, 1e-154])
+        v = [rng.gauss(0, 1) * big for _ in range(3)]
+        if rng.random() < 0.3:
+            v[rng.randrange(3)] = rng.choice([float("inf"), float("-inf"), float("nan"), -0.0, 1.0])
+        return v
     if u < 0.08:
         v = [0.0, 0.0, 0.0]; v[rng.randrange(3)] = rng.choice([1.0, -1.0, 2.5, -1e-3]) * (sc if rng.random() < 0.5 else 1.0)
     elif u < 0.16:
@@ -116,6 +122,9 @@ def rquat(rng):
         q = [0.0, 0.0, 0.0, 1.0]; i = rng.randrange(4); q = q[i:] + q[:i]
     elif u < 0.73:
         q = [0.0, 0.0, 0.0, 0.0]
+    elif u < 0.76:
+        big = rng.choice([1e200, 1e-200, 5e-324, float("inf"), float("nan")])
+        q = [x * big for x in q]
     return q
 
 
@@ -186,7 +195,7 @@ def rotation_cases(ctx, clib, libm, n):
             a, b = rpair(rng)
             cases.append((kind, "(r_from_to %s %s)" % (Vc(a), Vc(b)), lq(clib.reb_rotation_init_from_to(v3(a), v3(b))), (a, b)))
         elif kind == "angle_axis":
-            ang = rng.choice([0.0, math.pi, -math.pi / 2, rng.uniform(-7, 7), rng.gauss(0, 1) * 10 ** rng.uniform(-8, 3)])
+            ang = rng.choice([0.0, -0.0, math.pi, 2 * math.pi, 4 * math.pi, -math.pi / 2, 1e-300, 1e300, float('inf'), float('nan'), rng.uniform(-7, 7), rng.uniform(-7, 7), rng.gauss(0, 1) * 10 ** rng.uniform(-8, 3)])
             ax = rvec(rng)
             cs = libm.cs(ang / 2.0)
             if cs is None:
@@ -218,7 +227,7 @@ def rotation_cases(ctx, clib, libm, n):
             cases.append((kind, "(r_to_new_axes %s %s %s %s)" % (vlib.fhex(cs[0]), vlib.fhex(cs[1]), Vc(z), Vc(x)),
                           lv(r) + lq(clib.reb_rotation_init_to_new_axes(v3(z), v3(x))), (z, x)))
         elif kind == "orbit":
-            Om, inc, om = [rng.choice([0.0, rng.uniform(-7, 7), math.pi]) for _ in range(3)]
+            Om, inc, om = [rng.choice([0.0, rng.uniform(-7, 7), math.pi, 2 * math.pi, 1e-9, math.pi - 1e-9, -0.0]) for _ in range(3)]
             o = [libm.cs(om / 2.0), libm.cs(inc / 2.0), libm.cs(Om / 2.0)]
             if any(c is None for c in o):
                 skipped += 1; continue
@@ -243,7 +252,7 @@ def rotation_cases(ctx, clib, libm, n):
             if u < 0.15: q2 = list(q1)
             elif u < 0.3: q2 = [-x for x in q1]
             elif u < 0.45: q2 = [x + rng.gauss(0, 1e-5) for x in q1]
-            t = rng.choice([0.0, 1.0, 0.5, rng.random(), rng.uniform(-1, 2)])
+            t = rng.choice([0.0, 1.0, 0.5, rng.random(), rng.uniform(-1, 2), float('nan'), 1e300])
             c = q1[3] * q2[3] + q1[0] * q2[0] + q1[1] * q2[1] + q1[2] * q2[2]
             ht = libm.m.acos(c)
             aA, aB = (1.0 - t) * ht, t * ht
